@@ -45,7 +45,8 @@ impl Acct {
 pub enum Step {
     /// the clock (inserted by the core's clock faults)
     Wait { n: u32 },
-    Install { threshold: u32, weights: std::vec::Vec<u32> },
+    /// omit: rule signers that get NO weight entry (they count for nothing, and must not hide the signers after them)
+    Install { threshold: u32, weights: std::vec::Vec<u32>, #[serde(default)] omit: std::vec::Vec<usize> },
     SetThreshold { t: u32, by_account: bool },
     SetWeight { s: usize, w: u32 },
     Uninstall,
@@ -81,7 +82,7 @@ impl Check for Thresholds {
         let mut steps = vec![];
         for k in 0..nsteps {
             let s = match if k == 0 { 0 } else { rng.below(100) } {
-                0..=9 => Step::Install { threshold: match rng.below(6) { 0 => 0, 1 => n as u32 + 1, 2 => u32::MAX, _ => 1 + rng.below(n as u64 * 3) as u32 }, weights: (0..n).map(|_| wv(rng)).collect() },
+                0..=9 => Step::Install { threshold: match rng.below(6) { 0 => 0, 1 => n as u32 + 1, 2 => u32::MAX, _ => 1 + rng.below(n as u64 * 3) as u32 }, weights: (0..n).map(|_| wv(rng)).collect(), omit: if rng.chance(45) { (0..n).filter(|_| rng.chance(30)).collect() } else { vec![] } },
                 10..=21 => Step::SetThreshold { t: match rng.below(6) { 0 => 0, 1 => n as u32, 2 => n as u32 + 1, _ => 1 + rng.below(n as u64 * 4) as u32 }, by_account: !rng.chance(10) },
                 22..=33 => Step::SetWeight { s: rng.below(n as u64 + 1) as usize, w: wv(rng) },
                 34..=36 => Step::Uninstall,
@@ -121,13 +122,14 @@ impl Check for Thresholds {
             let mut outcome: Option<(&str, bool, bool)> = None;
             match s {
                 Step::Wait { .. } => unreachable!("handled above"),
-                Step::Install { threshold, weights } => {
+                Step::Install { threshold, weights, omit } => {
                     if cfg.weighted {
                         let mut mp: Map<Signer, u32> = Map::new(e);
-                        for (k, x) in weights.iter().enumerate().take(cfg.signers) { mp.set(signer(k), *x); }
+                        for (k, x) in weights.iter().enumerate().take(cfg.signers) { if !omit.contains(&k) { mp.set(signer(k), *x); } }
                         let p = WeightedThresholdAccountParams { signer_weights: mp, threshold: *threshold };
                         let g = call("install", (p, rule.clone(), acct.clone()).into_val(e));
-                        let mw: BTreeMap<usize, u32> = weights.iter().enumerate().take(cfg.signers).map(|(k, x)| (k, *x)).collect();
+                        let mw: BTreeMap<usize, u32> = weights.iter().enumerate().take(cfg.signers).filter(|(k, _)| !omit.contains(k)).map(|(k, x)| (k, *x)).collect();
+                        if !omit.is_empty() { st.hit("probe.install_with_unweighted_rule_signers"); }
                         let x = !m.installed && matches!(total(&mw), Some(t) if *threshold >= 1 && *threshold <= t);
                         if x { m = Model { installed: true, t: *threshold, w: mw }; }
                         outcome = Some(("install", g, x));
